@@ -75,6 +75,14 @@ class SQLiteBuilder(SQLBuilder):
     def SELECT_FOR_UPDATE(builder, nowait, skip_locked, *sections):
         assert not builder.indent
         return builder.SELECT(*sections)
+    @classmethod
+    def eval_json_path(cls, values):
+        values = list(values)
+        path = SQLBuilder.eval_json_path(values)
+        if not any(isinstance(value, int) and value < 0 for value in values): return path
+        # JSON1 functions address array items counted from the end as [#-N]
+        return '$' + ''.join('[#%d]' % value if isinstance(value, int) and value < 0
+                             else SQLBuilder.eval_json_path([value])[1:] for value in values)
     def INSERT(builder, table_name, columns, values, returning=None):
         if not values: return 'INSERT INTO %s DEFAULT VALUES' % builder.quote_name(table_name)
         return SQLBuilder.INSERT(builder, table_name, columns, values, returning)
@@ -528,7 +536,7 @@ def py_json_unwrap(value):
 
 path_cache = {}
 
-json_path_re = re.compile(r'\[(-?\d+)\]|\.(?:(\w+)|"([^"]*)")', re.UNICODE)
+json_path_re = re.compile(r'\[#?(-?\d+)\]|\.(?:(\w+)|"([^"]*)")', re.UNICODE)
 
 def _parse_path(path):
     if path in path_cache:
